@@ -1,10 +1,16 @@
 """pytolean — translate a SMALL, explicitly delimited subset of Python function definitions to Lean 4 text.
 
 The source is obtained with `inspect.getsource` from the imported function object and read with `ast.parse` (no text
-scraping).  The translation is literal: nothing is simplified, no invariant is used; what the loop means is proved in
-lean/Reduino/GenOb/Layout.lean against the hand-written model.
+scraping).  The translation is literal: nothing is simplified, no invariant is used; what the code means is proved in
+lean/Reduino/GenOb/{Layout,Escape,Utils}.lean against the hand-written models.
 
-THE SUBSET  (anything else raises `Unsupported(<ast node kind>, <line in the function>)`)
+A function is read as one of three SHAPES, named by the generator in harness/extract.py (`translate_function(fn, shape)`):
+  "str"    a scan over the characters of one string          (W20: `_indent_of`, `_strip_inline_comment`, `_escape_string_literal`)
+  "num"    straight-line arithmetic over Python numbers      (W21: `Utils.map`, `Utils.sleep`)
+  "lines"  an index loop `while i < len(lines)` over a list of lines   (W21: `_collect_block`)
+The subsets of "num" and "lines" are spelled out after that of "str", at the end of this docstring.
+
+THE SUBSET, shape "str"  (anything else raises `Unsupported(<ast node kind>, <line in the function>)`)
 
   def f(p):                         exactly one positional parameter, a `str` (annotations are ignored, no defaults,
       "docstring"                    no decorators); strings are `List Char`
@@ -41,6 +47,43 @@ WHAT IS GENERATED  for a function with a loop named `_indent_of` (Lean name `ind
 MEANING OF THE PYTHON PRIMITIVES (trusted, see DESIGN.md W20): str = List Char; `p[:idx]` with 0 <= idx = `List.take`;
 `.rstrip()` = `Reduino.Lang.Layout.rstrip`; `.replace(c, s)` with a one-character pattern = `Reduino.Lang.Esc.replaceChar`;
 Python's unbounded non-negative int with `+=` of a non-negative literal = Nat.
+
+THE SUBSET, shape "num"  (W21)
+
+  def f(p1, ..., pn, *, hook=None):      n >= 1 positional parameters without defaults: Python numbers, the model's `Val α` (int | float over the
+      "docstring"                        carrier α); keyword-only parameters must default to None (effect hooks); annotations ignored
+      if <cmp>: raise <E>(...)           E in ValueError | TypeError | RuntimeError | ZeroDivisionError; no else   ->  `if c then .error .e else <rest>`
+      v = <num expr>                     each local assigned once, never a parameter                                ->  `let v := e` / <rest>
+      h = <hook> or <dotted name>        at most once: h is THE EFFECT of the function; no Lean text
+      return <num expr>  |  h(<num expr>)     the last statement: `.ok e` — for `h(e)` the result of the translated function is the value handed to the effect
+  num expr   parameter | local | int literal (`Val.int n`) | float literal with an integral value, |x| < 2^53 (`Val.flt (Num.ofInt n)`) | -e (`Val.neg`)
+             | e + e | e - e | e * e | e / e  (`Val.add/sub/mul/div`) | float(e) (`Val.toFloat`)
+             `a / d` only where d is a non-zero literal, or `x - y` after a guard `if x == y: raise ...` (or `y == x`) has been passed: Python raises
+             ZeroDivisionError on a zero divisor, `Val.div` does not
+  cmp        a == b (`Reduino.Host.Utils.veq`, numbers without NaN) | a != b | a < b (`Val.lt`) | a <= b (`Val.le`) | a > b | a >= b (operands swapped)
+  generated  `def f (p1 ... pn : Val α) : Except Exc (Val α)` under `variable {α} [Num α] [LT α] [LE α] … [Div α] [Neg α]` — generic in the float carrier
+             exactly as the model is, so the obligation `Gen.Utils.f … = Host.Utils.f …` covers the ordered field of the theorems AND the IEEE `Float` of the driver
+
+THE SUBSET, shape "lines"  (W21)
+
+  def f(lines, n1, ...):                 `lines` (the parameter under `len(...)` in the loop test): a list of str = `List (List Char)`; the others: ints >= 0 = Nat
+      c = <nat expr>                     a local the loop does not change: a constant (`let` in the wrapper, a parameter of `f.go`)
+      i = <nat expr>                     a local the loop changes with `+=`: a Nat state field; one of them is the loop index
+      acc = []   |  acc: List[str] = []  a local the loop `.append`s to: a `List (List Char)` state field
+      while i < len(lines):              exactly this test, no else;  then one `return <local> | <local>, <local>, ...`
+  loop body  acc.append(<line>) | i += <int literal >= 0> | if <bool>: ... [elif ...] [else: ...] | continue | break | return <result>
+  line       lines[i] inside the loop, and only while `i` has not been advanced in this iteration (= `cur`, the head of the lines still to be read);
+             lines[<nat expr>] before the loop (= `lines.getD k []`: an index out of range raises IndexError in Python, reads the empty line here)
+  nat expr   parameter | constant | Nat local | int literal >= 0 | e + e | g(<line>) with g a shape-"str" function returning a Nat local, translated
+             EARLIER IN THE SAME MODULE (the call goes to the translated g: `_indent_of` -> `indentOf`); a callee that was not translated leaves the caller out
+  bool       not <line>.strip() (`(Reduino.Lang.Layout.strip l).isEmpty`) | <line>.strip() | not b | b and b | b or b | <nat> <op> <nat>, op in <= < >= > == !=
+  checked    every path to the next iteration (falling off the body, `continue`) advances the index by EXACTLY one — so that `while i < len(lines)` with
+             `lines[i]` is the structural recursion `f.go … : List (List Char) → Exit State ρ` on `lines[i:]`, started on `lines.drop <initial i>`;
+             no parameter is assigned, appended to or otherwise changed in the loop
+  generated  `structure f.State` (state fields in order of initialisation), `def f.go (c : Nat)… (st : f.State) : List (List Char) → Exit f.State ρ`,
+             `def f (lines : List (List Char)) (n1 … : Nat) : ρ := let c := …; match f.go c… <initial state> (lines.drop <i0>) with | .ret v => v | .fell st => <final return>`
+  meaning of the primitives (trusted): list of str = `List (List Char)`; `acc.append(x)` = `acc ++ [x]`; `.strip()` = `Lang.Layout.strip` (the six ASCII blanks, as `.rstrip()`);
+  ints are non-negative (`start` is an index; `lines[-1]` is outside the tie)
 """
 from __future__ import annotations
 
@@ -508,9 +551,217 @@ class _NumFn:
 
 
 
-class _LinesFn:   # part B
-    def __init__(self, node, pyname):
-        raise Unsupported("FunctionDef", 0, "shape lines not built yet", pyname)
+# ================================================================================================ index loops over a list of lines (W21)
+STRIP = "Reduino.Lang.Layout.strip"
+CUR = "cur"
+
+
+class _LinesFn(_Fn):
+    """translation of one function that walks a list of lines with `while i < len(lines)` (shape "lines", see the module docstring)"""
+
+    def __init__(self, node: ast.FunctionDef, pyname: str, known=None):
+        super().__init__(node, pyname)
+        self.known = known or {}            # python name -> (Lean name, result type) of the `str` functions translated before, same module
+        self.lines = None                   # the list parameter
+        self.nats: list[str] = []           # the other parameters: non-negative ints
+        self.consts: list[tuple[str, str, str]] = []   # locals the loop does not change: (name, type, term)
+
+    def ident(self, name, node):
+        if name == CUR:
+            raise self.bad(node, f"identifier {name!r} collides with a name the translator binds")
+        try:
+            return lean_ident(name)
+        except Unsupported as u:
+            raise self.bad(node, u.why) from None
+
+    def ctype(self, name):
+        for n, t, _ in self.consts:
+            if n == name:
+                return t
+        return None
+
+    # ---- expressions
+    def line_expr(self, e, env) -> str:
+        """-> Lean term of type List Char: `lines[i]` at the loop index (not yet advanced), `lines[<nat>]` before the loop"""
+        if isinstance(e, ast.Subscript) and isinstance(e.ctx, ast.Load) and isinstance(e.value, ast.Name) and e.value.id == self.lines and not isinstance(e.slice, ast.Slice):
+            if self.in_loop:
+                if isinstance(e.slice, ast.Name) and e.slice.id == self.idx and env.get(self.idx) == f"st.{lean_ident(self.idx)}":
+                    return CUR
+                raise self.bad(e, "inside the loop only `<lines>[<index>]`, read before the index is advanced")
+            return f"({self.ident(self.lines, e)}.getD {self.atom(self.nat_expr(e.slice, env))} [])"
+        raise self.bad(e, "not a line expression of the subset")
+
+    def nat_expr(self, e, env) -> str:
+        if isinstance(e, ast.Constant) and type(e.value) is int and e.value >= 0:
+            return str(e.value)
+        if isinstance(e, ast.Name) and isinstance(e.ctx, ast.Load):
+            if e.id in self.nats or self.ctype(e.id) == "Nat":
+                return self.ident(e.id, e)
+            if self.ftype(e.id) == "Nat" and e.id in env:
+                return env[e.id]
+            raise self.bad(e, f"{e.id!r} is not a non-negative int of this function")
+        if isinstance(e, ast.BinOp) and isinstance(e.op, ast.Add):
+            return f"{self.atom(self.nat_expr(e.left, env))} + {self.atom(self.nat_expr(e.right, env))}"
+        if isinstance(e, ast.Call) and isinstance(e.func, ast.Name) and len(e.args) == 1 and not e.keywords:
+            lean, rty = self.known.get(e.func.id, (None, None))
+            if rty != "Nat":
+                raise self.bad(e, f"calls `{e.func.id}`, which is not a translated str -> int function of this module")
+            return f"{lean} {self.atom(self.line_expr(e.args[0], env))}"
+        raise self.bad(e, "not an int expression of the subset")
+
+    def is_strip(self, e):
+        return isinstance(e, ast.Call) and isinstance(e.func, ast.Attribute) and e.func.attr == "strip" and not e.args and not e.keywords
+
+    def bool_expr(self, e, env) -> str:
+        if isinstance(e, ast.UnaryOp) and isinstance(e.op, ast.Not):
+            if self.is_strip(e.operand):
+                return f"({STRIP} {self.atom(self.line_expr(e.operand.func.value, env))}).isEmpty"
+            return "!" + self.atom(self.bool_expr(e.operand, env))
+        if self.is_strip(e):
+            return f"!({STRIP} {self.atom(self.line_expr(e.func.value, env))}).isEmpty"
+        if isinstance(e, ast.BoolOp) and isinstance(e.op, (ast.And, ast.Or)):
+            op = " && " if isinstance(e.op, ast.And) else " || "
+            return "(" + op.join(self.atom(self.bool_expr(v, env)) for v in e.values) + ")"
+        if isinstance(e, ast.Compare):
+            ops = {ast.LtE: "≤", ast.Lt: "<", ast.GtE: "≥", ast.Gt: ">", ast.Eq: "=", ast.NotEq: "≠"}
+            if len(e.ops) != 1 or type(e.ops[0]) not in ops:
+                raise self.bad(e, "only a single comparison of ints")
+            return f"decide ({self.nat_expr(e.left, env)} {ops[type(e.ops[0])]} {self.nat_expr(e.comparators[0], env)})"
+        raise self.bad(e, "not a bool expression of the subset")
+
+    # ---- loop body
+    def recurse(self, env) -> str:
+        if env[self.idx] != f"st.{lean_ident(self.idx)} + 1":
+            raise self.bad(self.loop, f"every path to the next iteration must advance `{self.idx}` by exactly one (found {env[self.idx]!r})")
+        cs = "".join(" " + self.ident(n, self.loop) for n, _, _ in self.consts)
+        return f"{self.name}.go{cs} {self.state(env)} rest"
+
+    def result_expr(self, e, env) -> str:
+        elts = e.elts if isinstance(e, ast.Tuple) else [e]
+        terms, types = [], []
+        for x in elts:
+            if not isinstance(x, ast.Name):
+                raise self.bad(x, "the result is a local or a tuple of locals")
+            t = self.ftype(x.id) or self.ctype(x.id)
+            if t is None or (self.ftype(x.id) and x.id not in env):
+                raise self.bad(x, f"{x.id!r} is not a local of this function")
+            terms.append(env[x.id] if self.ftype(x.id) else self.ident(x.id, x))
+            types.append(t if " " not in t else f"({t})") if len(elts) > 1 else types.append(t)
+        self.result(" × ".join(types), e)
+        return "(" + ", ".join(terms) + ")" if len(terms) > 1 else terms[0]
+
+    def body(self, stmts, env, ind) -> list[str]:
+        if stmts:
+            s, tail = stmts[0], stmts[1:]
+            if isinstance(s, ast.AugAssign):
+                if not (isinstance(s.target, ast.Name) and isinstance(s.op, ast.Add) and self.ftype(s.target.id) == "Nat"
+                        and isinstance(s.value, ast.Constant) and type(s.value.value) is int and s.value.value >= 0):
+                    raise self.bad(s, "only `<int local> += <literal >= 0>`")
+                env = dict(env)
+                env[s.target.id] = f"{env[s.target.id]} + {s.value.value}"
+                return self.body(tail, env, ind)
+            if isinstance(s, ast.Expr):
+                c = s.value
+                if not (isinstance(c, ast.Call) and isinstance(c.func, ast.Attribute) and c.func.attr == "append" and isinstance(c.func.value, ast.Name)
+                        and self.ftype(c.func.value.id) == "List (List Char)" and len(c.args) == 1 and not c.keywords):
+                    raise self.bad(s, "only `<list local>.append(<line>)`")
+                env = dict(env)
+                env[c.func.value.id] = f"{env[c.func.value.id]} ++ [{self.line_expr(c.args[0], env)}]"
+                return self.body(tail, env, ind)
+            if isinstance(s, ast.Assign):
+                raise self.bad(s, "no assignment inside the loop (only `+=` and `.append`)")
+        return super().body(stmts, env, ind)
+
+    @staticmethod
+    def changed_in(loop) -> set:
+        out = set()
+        for n in ast.walk(loop):
+            if isinstance(n, ast.AugAssign) and isinstance(n.target, ast.Name):
+                out.add(n.target.id)
+            elif isinstance(n, (ast.Assign, ast.AnnAssign)):
+                for t in (n.targets if isinstance(n, ast.Assign) else [n.target]):
+                    out |= {x.id for x in ast.walk(t) if isinstance(x, ast.Name)}
+            elif isinstance(n, ast.Call) and isinstance(n.func, ast.Attribute) and isinstance(n.func.value, ast.Name) and n.func.attr != "strip":
+                out.add(n.func.value.id)
+        return out
+
+    def translate(self) -> str:
+        f, a = self.node, self.node.args
+        if f.decorator_list:
+            raise self.bad(f.decorator_list[0], "decorator")
+        if isinstance(f, ast.AsyncFunctionDef) or a.posonlyargs or a.kwonlyargs or a.vararg or a.kwarg or a.defaults or len(a.args) < 1:
+            raise self.bad(f, "plain positional parameters only")
+        stmts = list(f.body)
+        if stmts and isinstance(stmts[0], ast.Expr) and isinstance(stmts[0].value, ast.Constant) and isinstance(stmts[0].value.value, str):
+            stmts = stmts[1:]
+        if len(stmts) < 2 or not isinstance(stmts[-2], ast.While) or not isinstance(stmts[-1], ast.Return) or stmts[-1].value is None:
+            raise self.bad(stmts[-2] if len(stmts) >= 2 else f, "expected: initialisers, one `while <i> < len(<lines>)` loop, one `return`")
+        loop, final = stmts[-2], stmts[-1]
+        self.loop = loop
+        t = loop.test
+        if not (not loop.orelse and isinstance(t, ast.Compare) and len(t.ops) == 1 and isinstance(t.ops[0], ast.Lt) and isinstance(t.left, ast.Name)
+                and isinstance(t.comparators[0], ast.Call) and isinstance(t.comparators[0].func, ast.Name) and t.comparators[0].func.id == "len"
+                and len(t.comparators[0].args) == 1 and isinstance(t.comparators[0].args[0], ast.Name) and not t.comparators[0].keywords):
+            raise self.bad(loop, "only `while <i> < len(<lines>)` without else")
+        self.idx, self.lines = t.left.id, t.comparators[0].args[0].id
+        params = [x.arg for x in a.args]
+        if self.lines not in params or self.idx in params or len(set(params)) != len(params):
+            raise self.bad(loop, "the loop must run over a parameter, with a local index")
+        self.param = self.lines
+        self.nats = [p for p in params if p != self.lines]
+        changed = self.changed_in(loop)
+        if self.lines in changed or set(self.nats) & changed:
+            raise self.bad(loop, "a parameter is modified inside the loop")
+        # ---- initialisers: a local the loop changes is a state field, any other a constant
+        for s in stmts[:-2]:
+            if isinstance(s, ast.Assign) and len(s.targets) == 1 and isinstance(s.targets[0], ast.Name):
+                name, val = s.targets[0].id, s.value
+            elif isinstance(s, ast.AnnAssign) and isinstance(s.target, ast.Name) and s.value is not None and s.simple:
+                name, val = s.target.id, s.value
+            else:
+                raise self.bad(s, "initialiser must be `<name> = <int expr>` or `<name> = []`")
+            if name in params or self.ftype(name) or self.ctype(name):
+                raise self.bad(s, f"{name!r} initialised twice or shadows a parameter")
+            self.ident(name, s)
+            if isinstance(val, ast.List) and not val.elts:
+                ty, term = "List (List Char)", "[]"
+            else:
+                ty, term = "Nat", self.nat_expr(val, {})
+            if name in changed:
+                self.fields.append((name, ty, term))
+            elif ty == "Nat":
+                self.consts.append((name, ty, term))
+            else:
+                raise self.bad(s, "a list local the loop never appends to")
+        if self.ftype(self.idx) != "Nat":
+            raise self.bad(loop, f"the index `{self.idx}` must be an int local initialised before the loop and advanced in it")
+        unknown = changed - {n for n, _, _ in self.fields}
+        if unknown:
+            raise self.bad(loop, f"the loop changes {sorted(unknown)}, not initialised before it")
+        # ---- body and final return
+        env0 = {n: f"st.{lean_ident(n)}" for n, _, _ in self.fields}
+        self.in_loop = True
+        cons = self.body(list(loop.body), env0, 2)
+        self.in_loop = False
+        fin = self.result_expr(final.value, env0)
+        rho = self.result_type
+        rho_a = rho if " " not in rho else f"({rho})"
+        ls = self.ident(self.lines, f)
+        cb = "".join(f" ({self.ident(n, f)} : {t})" for n, t, _ in self.consts)
+        out = [f"structure {self.name}.State where"]
+        out += [f"  {lean_ident(n)} : {t}" for n, t, _ in self.fields]
+        out += ["", f"/-- the loop of `{self.pyname}`: the state before the lines still to be read (`{self.lines}[{self.idx}:]`, `{CUR}` = `{self.lines}[{self.idx}]`) ↦ how the loop is left -/",
+                f"def {self.name}.go{cb} (st : {self.name}.State) : List (List Char) → Exit {self.name}.State {rho_a}",
+                "  | [] => .fell st", f"  | {CUR} :: rest =>"]
+        out += cons
+        init = "{ " + ", ".join(f"{lean_ident(n)} := {v}" for n, _, v in self.fields) + " }"
+        i0 = [v for n, _, v in self.fields if n == self.idx][0]
+        sig = f"({ls} : List (List Char))" + "".join(f" ({self.ident(n, f)} : Nat)" for n in self.nats)
+        out += ["", f"/-- `{self.pyname}` (translated) -/", f"def {self.name} {sig} : {rho} :="]
+        out += [f"  let {self.ident(n, f)} := {v}" for n, _, v in self.consts]
+        out += [f"  match {self.name}.go{''.join(' ' + self.ident(n, f) for n, _, _ in self.consts)} {init} ({ls}.drop {self.atom(i0)}) with",
+                "  | .ret v => v", f"  | .fell {'st' if 'st.' in fin else '_'} => {fin}", ""]
+        return "\n".join(out)
 
 
 HEADER = """/-- how a translated loop is left: by `return v`, or by `break` / exhaustion with the state `st` -/
@@ -528,33 +779,41 @@ def function_ast(fn) -> ast.FunctionDef:
     return mod.body[0]
 
 
-SHAPES = {"str": lambda n, name: _Fn(n, name), "num": lambda n, name: _NumFn(n, name), "lines": lambda n, name: _LinesFn(n, name)}
+def _make(shape: str, node, name: str, known=None):
+    if shape == "lines":
+        return _LinesFn(node, name, known)
+    return {"str": _Fn, "num": _NumFn}[shape](node, name)
 
 
-def translate_function(fn, shape: str = "str") -> str:
-    """Lean text of the Python function object `fn`, read as a function of the given shape (see the module docstring)"""
+def translate_function(fn, shape: str = "str", known=None) -> str:
+    """Lean text of the Python function object `fn`, read as a function of the given shape (see the module docstring).  `known`: the
+    `str` functions of the same module translated before, python name -> (Lean name, result type); it is extended."""
     if not inspect.isfunction(fn):
         raise Unsupported(type(fn).__name__, 0, "not a Python function", getattr(fn, "__name__", "?"))
-    return SHAPES[shape](function_ast(fn), fn.__name__).translate()
+    t = _make(shape, function_ast(fn), fn.__name__, known)
+    text = t.translate()
+    if known is not None and shape == "str":
+        known[fn.__name__] = (t.name, t.result_type or "List Char")
+    return text
 
 
-def translate_source(src: str, name: str | None = None, shape: str = "str") -> str:
+def translate_source(src: str, name: str | None = None, shape: str = "str", known=None) -> str:
     """same, from source text (used by the self-tests)"""
     mod = ast.parse(textwrap.dedent(src))
     defs = [n for n in mod.body if isinstance(n, ast.FunctionDef) and (name is None or n.name == name)]
     if len(defs) != 1:
         raise Unsupported("Module", 1, "expected exactly one function definition")
-    return SHAPES[shape](defs[0], defs[0].name).translate()
+    return _make(shape, defs[0], defs[0].name, known).translate()
 
 
 def module_text(namespace: str, functions, imports=(), preamble: str = ""):
     """-> (Lean text, [Unsupported]).  `functions`: function objects (shape "str") or pairs (function, shape).  A function outside the
     subset is left out of the text (a comment says why), so that exactly the obligations about it stop building; the caller reports the errors."""
-    texts, errors = [], []
+    texts, errors, known = [], [], {}
     for fn in functions:
         fn, shape = fn if isinstance(fn, tuple) else (fn, "str")
         try:
-            texts.append(translate_function(fn, shape))
+            texts.append(translate_function(fn, shape, known))
         except Unsupported as e:
             errors.append(e)
             texts.append(f"-- NOT TRANSLATED: `{getattr(fn, '__name__', '?')}` is outside the subset of harness/pytolean.py: {e}\n")
@@ -600,6 +859,20 @@ _REJECTED_NUM = {
 }
 
 
+_LINES_OK = ("def blk(ls, s):\n    b = ind(ls[s])\n    k = s + 1\n    out = []\n    while k < len(ls):\n        if not ls[k].strip():\n"
+             "            out.append(ls[k]); k += 1; continue\n        if ind(ls[k]) <= b:\n            break\n        out.append(ls[k]); k += 1\n    return out, k\n")
+_REJECTED_LINES = {
+    "While": _LINES_OK.replace("while k < len(ls)", "while k < 3"),
+    "While ": _LINES_OK.replace("out.append(ls[k]); k += 1; continue", "out.append(ls[k]); continue"),          # an iteration that does not advance the index
+    "While  ": _LINES_OK.replace("out.append(ls[k]); k += 1\n", "out.append(ls[k]); k += 2\n"),
+    "Subscript": _LINES_OK.replace("out.append(ls[k]); k += 1\n", "k += 1; out.append(ls[k])\n"),               # `ls[k]` read after the index moved
+    "Subscript ": _LINES_OK.replace("if ind(ls[k]) <= b", "if ind(ls[k + 1]) <= b"),
+    "Call": _LINES_OK.replace("ind(ls[k])", "width(ls[k])"),                                                    # not a translated function of the module
+    "Assign": _LINES_OK.replace("        if ind(ls[k]) <= b", "        b = 0\n        if ind(ls[k]) <= b"),
+    "Expr": _LINES_OK.replace("out.append(ls[k]); k += 1\n", "out.insert(0, ls[k]); k += 1\n"),
+}
+
+
 def selftest(quiet: bool = False) -> int:
     import builtins
     print = (lambda *a, **k: None) if quiet else builtins.print
@@ -622,6 +895,21 @@ def selftest(quiet: bool = False) -> int:
             if e.kind != kind.strip():
                 print(f"selftest: num {kind}: refused as {e}")
                 bad += 1
+    known = {"ind": ("ind", "Nat")}
+    for kind, src in _REJECTED_LINES.items():
+        try:
+            translate_source(src, shape="lines", known=known)
+            print("selftest: ACCEPTED a line-walking function outside the subset:", kind)
+            bad += 1
+        except Unsupported as e:
+            if e.kind != kind.strip():
+                print(f"selftest: lines {kind}: refused as {e}")
+                bad += 1
+    ok = translate_source(_LINES_OK, shape="lines", known=known)
+    if ("blk.go b { st with k := st.k + 1, out := st.out ++ [cur] } rest" not in ok or "else if decide (ind cur ≤ b) then" not in ok
+            or "match blk.go b { k := s + 1, out := [] } (ls.drop (s + 1)) with" not in ok or "| .fell st => (st.out, st.k)" not in ok):
+        print("selftest: unexpected translation\n" + ok)
+        bad += 1
     ok = translate_source("def g(a, b, c, *, out=None):\n    if b == a:\n        raise TypeError('x')\n    q = (c - 2) / (a - b)\n    emit = out or print\n    emit(float(q) / 2.0)\n", shape="num")
     if ("if Reduino.Host.Utils.veq b a then .error .typeError" not in ok or "let q := Val.div (Val.sub c (Val.int 2)) (Val.sub a b)" not in ok
             or ".ok (Val.div (Val.toFloat q) (Val.flt (Num.ofInt 2)))" not in ok):
